@@ -198,6 +198,17 @@ func c09Long(ctx *core.Ctx, k int) {
 		for _, t := range qt.RelationTrees() {
 			c09Tree(ctx, t.Clone(), r)
 		}
+		// every leaf of the large and the rare alphabets, and values ending in a backslash, a
+		// quote or a bracket character, alone and under NOT / AND / OR: all parenthesis placements
+		edge := []*qt.Node{qt.T(qt.Phrase(`a\`)), qt.F("f", qt.Phrase(`C:\dir\`)), qt.T(qt.Phrase(`\`)), qt.F("f", qt.Phrase(`x\\`)), qt.T(qt.Phrase("(")), qt.T(qt.Phrase(")")), qt.F("f", qt.Phrase("a)")), qt.F("f", qt.Phrase("(a")),
+			qt.T(qt.Phrase("'")), qt.F("f", qt.Phrase("it's")), qt.T(qt.Regexp(`/a\)/`)), qt.T(qt.Regexp(`/(/`)), qt.F("f", qt.Regexp(`/\\/`)), qt.T(qt.Escaped("a)")), qt.T(qt.Escaped("(a")), qt.F("f", qt.Escaped(`a\`))}
+		z := qt.T(qt.Word("z"))
+		for _, l := range append(append(qt.FullLeaves(), qt.ExtraLeaves()...), edge...) {
+			for _, t := range []*qt.Node{l.Clone(), qt.Not(l.Clone()), qt.And(l.Clone(), z.Clone()), qt.Or(z.Clone(), l.Clone()), qt.And(qt.Not(l.Clone()), qt.Or(z.Clone(), l.Clone()))} {
+				c09Tree(ctx, t, r)
+			}
+			ctx.Count("leaf_alphabet_trees", 5)
+		}
 		// a symbol written directly behind a word that looks like the beginning of something
 		// longer (an exponent, a hex prefix, a dotted or dashed word) must still be its own token
 		words := []string{"1e", "2.5E", "10e", "1E", "5e", "1e5", "0x", "0x1p", "007", "1.", "a.b", "x-y", "a.", "x-", "1_000", "\u00e9", "\u0131", "NaN", "inf", "w*", "q?", "to", "or"}
